@@ -123,6 +123,8 @@ fn grammar(target: &'static str) -> BoxedStrategy<Vec<u8>> {
             let pat = prop_oneof![
                 3 => seed_line(SEED_PKGDEPS),
                 2 => c04::pattern_strategy(3),
+                1 => (20usize..90).prop_map(|n| format!("{{{}}}-[0-9]*", (0..n).map(|i| format!("p{}", i)).collect::<Vec<_>>().join(","))),
+                1 => (30usize..100).prop_map(|n| format!("p{}-1", "{a}".repeat(n))),
                 2 => (prop::sample::select(vec!["pkg", "a-b", "", "é"]), prop::sample::select(vec![">=", ">", "<", "<="]), vergen::tokens(6)).prop_map(|(b, o, v)| format!("{}{}{}", b, o, v.concat())),
                 1 => (vergen::tokens(3), vergen::tokens(3)).prop_map(|(a, b)| format!("p>={}<{}", a.concat(), b.concat())),
                 1 => "[a-c*?\\[\\]!0-9-]{0,10}",
